@@ -65,8 +65,16 @@ def run_c12(ctx):
                         if ctx.quick and rng.random() < 0.6 and (stale or had):
                             continue
                         cases.append(dict(outs=shape, compress=compress, stale=(2 + 2 * stale if stale else 0), hadOld=had, threads=2))
+        # store-time faults without a crash: an output that vanished, an entry that cannot be archived (a socket)
+        for units in unit_menu:
+            for shape in SHAPES[units]:
+                for compress in (False, True):
+                    cases.append(dict(outs=shape, compress=compress, stale=0, hadOld=False, threads=2, fault="vanished"))
+                    if any(o["kind"] == "dir" for o in shape):
+                        cases.append(dict(outs=shape, compress=compress, stale=0, hadOld=False, threads=2, fault="socket"))
     for i, c in enumerate(cases):
         c["id"] = i
+        c.setdefault("fault", "")
     obs = vlib.run_vh(ctx, "dircache-crash", cases, timeout=3000)
     expect_by_pc = {}
     for c in r.cases:
@@ -80,6 +88,13 @@ def run_c12(ctx):
             ctx.count(json.dumps([c["outs"], c["compress"], c["stale"], c["hadOld"], run["crashAt"]]), nontrivial=run["crashAt"] > 0,
                       sample=dict(case=c, run=run) if run["crashAt"] == 3 else None)
             ctx.traces_validated += 1
+            if c["fault"]:
+                # a store that could not read / archive everything: a later retrieve misses or restores the complete tree
+                # (the socket itself is not part of the tree the statement talks about: it is ignored if it was carried over)
+                if run["crashAt"] == 0 and run["hit"] and [l for l in run["restored"] if "zsock" not in l] != o["want"]:
+                    ctx.violation("C12 partial-tree-restored-after-faulty-store fault=%s mode=%s" % (c["fault"], mode),
+                                  dict(case=c, run=run, want=o["want"]))
+                continue
             if run["crashAt"] == 0:
                 if not run["hit"] or run["restored"] != o["want"]:
                     ctx.violation("C12 round-trip-differs mode=%s" % mode, dict(case=c, run=run, want=o["want"]))
@@ -97,7 +112,7 @@ def run_c12(ctx):
                 exp = expect_by_pc.get((min(len(o["points"]), 3), c["hadOld"], pc))
             # (the mapping of unit-level points to model steps depends on the shape; only protocol points are compared)
     # concurrent store / retrieve of one key
-    cc = [dict(c, id=i) for i, c in enumerate(cases) if not c["stale"] and not c["hadOld"]]
+    cc = [dict(c, id=i) for i, c in enumerate(cases) if not c["stale"] and not c["hadOld"] and not c["fault"]]
     if ctx.quick:
         cc = cc[:12]
     cobs = vlib.run_vh(ctx, "dircache-conc", cc, timeout=3000)
